@@ -85,6 +85,11 @@ GetClauses(P, e, Q) ==
     <<"NoEvictionWhenFits", ok =>
           (TotalKB(P.files, (P.entries \ e.rejected) \ ps) + TotalKB(Q.files, ps) <= Q.max => evd = {})>>,
     <<"LruOrder", e.nozombie => \A x \in evd, s \in (Q.entries \ ps) \cap P.entries : P.files[x].t <= P.files[s].t>>,
+    \* ... and only "until everything fits in the cache again": putting back the most recently used of the evicted files would
+    \* exceed the size (an exactly full cache fits)
+    <<"MinimalEviction", (ok /\ e.nozombie /\ evd # {}) =>
+          \E x \in evd : /\ \A y \in evd : P.files[y].t <= P.files[x].t
+                          /\ TotalKB(Q.files, Q.entries) + DiskKB(P.files, x) > Q.max>>,
     \* C18: entries = cache files on disk (fault-free histories); C19: never an entry without a file
     <<"EntriesEqualFiles", ok /\ e.clean => Q.entries = Present(Q.files)>>,
     <<"EntryHasFile", \A k \in Q.entries : Q.files[k].st # "none">>,
@@ -104,6 +109,9 @@ OpenClauses(P, e, Q) ==
     <<"EvictOnlyOnRequest", ~e.evict => evd = {}>>,
     <<"SizeBound", TotalKB(Q.files, Q.entries) <= Q.max>>,
     <<"LruOrder", \A x \in evd, s \in Q.entries : P.files[x].t <= P.files[s].t>>,
+    <<"MinimalEviction", evd # {} =>
+          \E x \in evd : /\ \A y \in evd : P.files[y].t <= P.files[x].t
+                          /\ TotalKB(Q.files, Q.entries) + DiskKB(P.files, x) > Q.max>>,
     <<"ForeignUntouched", Q.foreign = P.foreign>>
   })
 
@@ -125,7 +133,7 @@ PurgeClauses(P, e, Q) ==
   })
 
 C18Clauses == {"ServedExistsAndEqual", "HitNoContact", "ReturnedAreEntries", "SizeBound", "MaxNeverShrinks",
-               "MaxGrowsOnlyForOversizeRequest", "NoEvictionOfReturned", "NoEvictionWhenFits", "LruOrder",
+               "MaxGrowsOnlyForOversizeRequest", "NoEvictionOfReturned", "NoEvictionWhenFits", "LruOrder", "MinimalEviction",
                "EntriesEqualFiles", "ForeignUntouched", "OpenKeepsFiles", "EvictOnlyOnRequest",
                "RemoveDropsEntryAndFile", "NoNewEntries", "MaxUnchanged", "PurgeEmpties",
                "RejectedOpenKeepsFiles"}
